@@ -1,6 +1,7 @@
 import NixModel.Lemmas.C02Store
 import NixModel.Lemmas.C02Handles
 import NixModel.Lemmas.C02HandlesAny
+import NixModel.Pure.HandleState
 
 /-!
 # C02 — closing and reopening a file reproduces the complete observable state
@@ -244,6 +245,50 @@ example :
     let st := (Handles.run Code.current Handles.init roleHistory).1
     st.next = 1 ∧ st.plinks "metadata" = none ∧ attrGet (st.heap 0) "definition" = some "y" := by
   decide +kernel
+
+/-! ## the objects keep no state but the one the models account for (tie to the source: `Generated/HandleState.lean`)
+
+"Independent of how many handles to the same entity were used" holds in the structural model by construction (it has
+no handles) and in the handle machine by `handle_independence`; both speak for the code only while the code's
+objects keep nothing else.  The generated table lists every assignment of an instance field in nixio; the theorems
+below say that each is one of the fields the models account for, assigned only where its role allows — so no
+cached content (values, data, shapes, schemas, timestamps, parsed units) lives on any object, in any class
+attribute, in any module-level table or behind a caching decorator. -/
+section HandleState
+open Nix.HandleState Nix.Gen.HandleState
+
+/-- every instance field assigned anywhere in nixio is one the models account for … -/
+theorem handle_fields_accounted :
+    ∀ s ∈ sites, (classify s.1 s.2.1).isSome = true := by decide +kernel
+
+/-- … and is assigned only where its role allows: references and value-object fields in the constructor, lazily
+created containers in the constructor and in the getter of the same name, the cached HDF5 group in `H5Group.group`,
+parent handles in the constructor and the `parent` / `parent_block` getters, session switches in the constructor and
+their own setter -/
+theorem handle_fields_assigned_where_modelled :
+    ∀ s ∈ sites, ∀ r, classify s.1 s.2.1 = some r → allowedSite r s.2.1 s.2.2 = true := by decide +kernel
+
+/-- the model's list is not stale: every field it names is assigned somewhere in the code -/
+theorem handle_fields_all_present :
+    ∀ m ∈ modelled, (sites.any fun s => s.1 == m.1 && s.2.1 == m.2.1) = true := by decide +kernel
+
+/-- the cached group of `H5Group` — the state of the handle machine — is written by the `group` property only -/
+theorem h5cache_sites :
+    sites.filter (fun s => classify s.1 s.2.1 == some .h5cache) =
+      [("H5Group", "_group", "group"), ("H5Group", "_group", "group.setter")] := by decide +kernel
+
+/-- nothing else holds state: no class-level or module-level container (beyond the constant prefix table), no
+`global`, no caching decorator, no `__slots__`, no attribute hook but the `S` proxy, no state planted on other
+objects beyond the two modelled hand-overs, and every item assignment through a field is a write to the file -/
+theorem no_other_state :
+    classAttrs = [] ∧ moduleState = modelledModuleState ∧ cachingDecorators = [] ∧ slotsClasses = [] ∧
+    customSetattr = ["S"] ∧ foreignPrivateStores = modelledForeignStores ∧
+    selfItemStores = modelledItemStores := by decide +kernel
+
+/-- non-vacuity: the table is not empty and contains the handle machine's field -/
+example : ("H5Group", "_group", "group") ∈ sites ∧ 100 < sites.length := by decide +kernel
+
+end HandleState
 
 /-! ## non-vacuity: concrete histories that meet the hypotheses -/
 
